@@ -348,11 +348,13 @@ fn main() {
 
     // ---------------------------------------------------------------- (1)
     let sods_all: Vec<u32> = if thorough {
-        // every hour boundary -1/0/+1, every minute of hour 12, every second of 12:34
+        // every hour boundary (first, second and last second of the hour), every 5th
+        // minute of hour 12, every 5th second of 12:34 (every single second of the
+        // day is covered on 8 days by the next space)
         let mut v = vec![0u32, 1, 59, 60, 61, 86398, 86399];
         for h in 0..24u32 { v.extend([h * 3600, h * 3600 + 1, h * 3600 + 3599]) }
-        for m in 0..60u32 { v.push(12 * 3600 + m * 60) }
-        for s in 0..60u32 { v.push(12 * 3600 + 34 * 60 + s) }
+        for m in (0..60u32).step_by(5) { v.push(12 * 3600 + m * 60) }
+        for s in (0..60u32).step_by(5) { v.push(12 * 3600 + 34 * 60 + s) }
         v.sort(); v.dedup(); v
     } else { vec![0, 1, 43200, 86398, 86399] };
     let sp = ctx.space("time.calendar_sweep",
